@@ -68,6 +68,12 @@ def harness_overlays():
         ov[os.path.join(REPO, rel)] = p
     return ov
 
+def _older_than(path, seconds):
+    try:
+        return time.time() - os.path.getmtime(path) > seconds
+    except OSError:
+        return False
+
 def dump_ssa(tags=HARNESS_TAG, cgo=True, name='ssa', extra_args=()):
     """regenerate the SSA dump from /repo's current working tree (cached by content hash)"""
     ov = harness_overlays()
@@ -78,8 +84,10 @@ def dump_ssa(tags=HARNESS_TAG, cgo=True, name='ssa', extra_args=()):
     gossa = os.path.join(CACHE, 'gossa')
     if not os.path.exists(gossa):
         build_gossa()
+    # stale dumps of other source states are removed once they are old enough not to belong to a check that is
+    # running concurrently against another tree
     for old in glob.glob(os.path.join(CACHE, name + '_*.json')):
-        if ('_%s_%d.json' % (tags.replace(',', '+'), int(cgo))) in old:
+        if ('_%s_%d.json' % (tags.replace(',', '+'), int(cgo))) in old and _older_than(old, 7200):
             os.remove(old)
     cmd = [gossa, '-o', out + '.tmp', '-dir', REPO, '-tags', tags, '-cgo=%s' % ('true' if cgo else 'false')]
     for v, r in ov.items():
@@ -218,7 +226,8 @@ def get_llvm(defs=('-D__ADX__',), opt='-O0'):
     paths = [os.path.join(d, u + '.ll') for u in llvm.UNITS]
     if not all(os.path.exists(p) for p in paths):
         for old in glob.glob(os.path.join(CACHE, 'll_*_%s' % tag)):
-            shutil.rmtree(old, ignore_errors=True)
+            if _older_than(old, 7200):
+                shutil.rmtree(old, ignore_errors=True)
         tmp = d + '.tmp%d' % os.getpid()
         llvm.compile_ir(REPO, tmp, defs, opt)
         try:
